@@ -294,15 +294,20 @@ class Driver:
 
 
 def load_known_findings() -> list[dict]:
-    """known_findings.json (+ fragments known_findings.d/*.json while the build is in progress)."""
+    """Open entries of known_findings.json — the single committed known-findings file, generated from
+    the per-property source fragments known_findings.d/*.json by harness/mkfindings.py.  Fragment
+    entries whose id is not (yet) in the merged file are read as well, so that a fragment edited during
+    development is honoured before the next merge; after a merge the fragments add nothing."""
     out: list[dict] = []
+    seen: set[str] = set()
     p = VERIF / "known_findings.json"
-    if p.exists():
-        out += json.loads(p.read_text()).get("findings", [])
-    d = VERIF / "known_findings.d"
-    if d.is_dir():
-        for f in sorted(d.glob("*.json")):
-            out += json.loads(f.read_text()).get("findings", [])
+    srcs = ([p] if p.exists() else []) + sorted((VERIF / "known_findings.d").glob("*.json"))
+    for f in srcs:
+        d = json.loads(f.read_text())
+        for e in d.get("findings", []):
+            if e.get("id") not in seen:
+                seen.add(e.get("id"))
+                out.append(e)
     return out
 
 
